@@ -592,3 +592,35 @@ Theorem accessor_range_endpoints_refuted :
     value_range (accessor conv a) b e = Some (3, 255) /\ (conv lo, conv hi) = (255, 44).
 Proof. exact ProofsArr.accessor_range_endpoints_refuted. Qed.
 Print Assumptions accessor_range_endpoints_refuted.
+
+(* ---- the other members of the index-sequence iterator (generated operators) *)
+Theorem iterator3_members :
+  forall (d : vec3 IZ) (a b : Z),
+  multidim_index_iterator3_mk__v3ul IZ d = it3 d 0 /\
+  multidim_index_iterator3_current__ IZ (it3 d a) = a /\
+  multidim_index_iterator3_jump_to__ul IZ (it3 d a) b = it3 d b /\
+  multidim_index_iterator3_op_add__ul IZ (it3 d a) b = it3 d (a + b) /\
+  multidim_index_iterator3_op_sub__ul IZ (it3 d a) b = it3 d (a - b) /\
+  multidim_index_iterator3_op_add__multidim_index_iterator3 IZ (it3 d a) (it3 d b) = it3 d (a + b) /\
+  multidim_index_iterator3_op_sub__multidim_index_iterator3 IZ (it3 d a) (it3 d b) = it3 d (a - b) /\
+  multidim_index_iterator3_op_dec__i IZ (it3 d a) 0 = it3 d (a - 1) /\
+  multidim_index_iterator3_op_eq__multidim_index_iterator3 IZ (it3 d a) (it3 d b) = (a =? b) /\
+  multidim_index_sequence3_dimensions__ IZ (seq3 d) = d.
+Proof. exact ProofsArr.iterator3_members. Qed.
+Print Assumptions iterator3_members.
+
+Theorem iterator2_members :
+  forall (d : vec2 IZ) (a b : Z),
+  multidim_index_iterator2_mk__v2ul IZ d = it2 d 0 /\
+  multidim_index_iterator2_current__ IZ (it2 d a) = a /\
+  multidim_index_iterator2_jump_to__ul IZ (it2 d a) b = it2 d b /\
+  multidim_index_iterator2_op_add__ul IZ (it2 d a) b = it2 d (a + b) /\
+  multidim_index_iterator2_op_sub__ul IZ (it2 d a) b = it2 d (a - b) /\
+  multidim_index_iterator2_op_add__multidim_index_iterator2 IZ (it2 d a) (it2 d b) = it2 d (a + b) /\
+  multidim_index_iterator2_op_sub__multidim_index_iterator2 IZ (it2 d a) (it2 d b) = it2 d (a - b) /\
+  multidim_index_iterator2_op_dec__i IZ (it2 d a) 0 = it2 d (a - 1) /\
+  multidim_index_iterator2_op_eq__multidim_index_iterator2 IZ (it2 d a) (it2 d b) = (a =? b) /\
+  multidim_index_sequence2_dimensions__ IZ (seq2 d) = d.
+Proof. exact ProofsArr.iterator2_members. Qed.
+Print Assumptions iterator2_members.
+
